@@ -1,4 +1,4 @@
-\* behaviour generation from the as-coded model (simulation mode)
+\* behaviour generation with genesis export / re-import of a chain at arbitrary points (C16)
 CONSTANTS
   Chains = {"A","B","C"}
   Names = {"A","B","C","Z"}
@@ -23,7 +23,7 @@ CONSTANTS
   RuleChains = {"B"}
   AdvOn = TRUE
   ExpirePairs <- NoPairs
-  ExportOn = FALSE
+  ExportOn = TRUE
   LOG = TRUE
   SimDepth = 40
   SimMode = "mixed"
